@@ -59,6 +59,7 @@ def run(ctx):
 
     # ------------------------------------------------------------------ writer vocabulary
     written = set()  # (element, kind)
+    write_sites = {}  # (element, kind) -> [(body, write_event call)]
     wattrs = {}  # element -> {attr name: value description}
     push_types = []
     for wb in wbodies:
@@ -92,6 +93,7 @@ def run(ctx):
                     ctx.violation("V1", "unrecognised-element|" + wb.short, "write_event(Event::%s) with an element whose name is not a literal (fail closed)" % kind, loc_str(t.span))
                     continue
                 written.add((el, kind))
+                write_sites.setdefault((el, kind), []).append((wb, t))
                 if el == "#text":
                     ctx.require(how == "new", "V3", "text-escaped", "text content is built with BytesText::new (escaping)", "text content is built with BytesText::%s: special characters are written raw" % how, loc_str(t.span))
             elif nm.endswith("BytesStart::push_attribute"):
@@ -219,6 +221,30 @@ def run(ctx):
     kfor = lit_str(wattrs.get("key", {}).get("for", (None,))[0]) if wattrs.get("key", {}).get("for") else None
     kname = lit_str(wattrs.get("key", {}).get("attr.name", (None,))[0]) if wattrs.get("key", {}).get("attr.name") else None
     ctx.require(ks is not None and ks == ds, "V2", "data-key", "<data key> literal equals <key id> literal (%r)" % ks, "<data key=%r> does not reference the declared <key id=%r>: weights are not found on read-back" % (ds, ks))
+    # V7: a <data key=K> is only understood if K is the reader's weight key: either the reader starts out with K as
+    # its weight key (a default), or the declaration <key id=K ..> has been written before any <data> (must-pass-through)
+    ctx.rule("V7", "every <data> the writer emits refers to a key the reader knows: the reader's default weight key, or a <key> declaration written on every path before it")
+    default_ok = False
+    for t in reader.calls():
+        if t.callee and t.callee.short.split("::")[-1] in ("to_string", "to_owned", "from", "into") and t.args:
+            if lit_str(rf.describe(t.args[0], depth=6)) == ds and ds is not None and "String" in t.dest.ty:
+                default_ok = True
+    key_sites = [x for (e, k), v in write_sites.items() if e == "key" for x in v]
+    data_sites = [x for (e, k), v in write_sites.items() if e == "data" and k in ("Start", "Empty") for x in v]
+    decl_first = bool(key_sites) and bool(data_sites)
+    where = None
+    for (db, dt) in data_sites:
+        ok_d = False
+        for (kb, kt) in key_sites:
+            if kb.path == db.path:
+                ok_d = ok_d or kb.dominates(kt.bb, dt.bb)
+            else:
+                calls = [c for c in kb.calls() if c.callee and c.callee.target_path(prog) == db.path]
+                ok_d = ok_d or (bool(calls) and all(kb.dominates(kt.bb, c.bb) for c in calls))
+        if not ok_d:
+            decl_first = False
+            where = loc_str(dt.span)
+    ctx.require(default_ok or decl_first, "V7", "data-key-known", "the reader's default weight key is %r%s" % (ds, "" if not decl_first else " and the <key> declaration is written before every <data>") if default_ok else "the <key> declaration is written on every path before a <data> element", "the reader has no default weight key and a <data key=%r> can be written without the <key> declaration having been written (%s): on read-back the weights are ignored" % (ds, where), where)
     # the reader recognises the weight key by attr.name == "weight" and for == "edge"
     rlits = set()
     for t in reader.calls():
